@@ -26,8 +26,8 @@ pub fn prop() -> Prop {
         id: "C04",
         level: "fault_enumeration",
         runs: |t| match t {
-            Tier::Quick => 3500,
-            Tier::Thorough => 40000,
+            Tier::Quick => 2800,
+            Tier::Thorough => 34000,
         },
         generate,
         exec,
@@ -54,7 +54,11 @@ fn gen_c<C: Suite>(seed: u64, run: u64, tier: Tier) -> Scenario {
     let mut s = base_scenario("C04", C::NAME, seed, run);
     let slow = C::COST >= 9;
     let max_n = if slow { 4 } else { 6 };
-    let (n, t) = gen_nt(&mut p, 2, max_n);
+    let (mut n, mut t) = gen_nt(&mut p, 2, max_n);
+    if let Some((wn, wt)) = maybe_wide::<C>(&mut p, 14) {
+        n = wn;
+        t = wt;
+    }
     s.n = n;
     s.t = t;
     s.id_scheme = (*p.pick(&ID_SCHEMES)).to_string();
